@@ -3,6 +3,9 @@
 #include <cstdlib>
 #include <cstddef>
 #include <new>
+#include <exception>
+#include <cstdio>
+#include <unistd.h>
 extern "C" {
 struct verif_heap_blk { void* p; size_t n; };
 verif_heap_blk verif_heap_log[65536]; size_t verif_heap_n = 0;
@@ -20,3 +23,7 @@ void operator delete(void* p) noexcept { __wrap_free(p); }
 void operator delete[](void* p) noexcept { __wrap_free(p); }
 void operator delete(void* p, size_t) noexcept { __wrap_free(p); }
 void operator delete[](void* p, size_t) noexcept { __wrap_free(p); }
+
+// An exception that leaves the harness entry is an event ("THROW"), reported like the CBMC side does
+static void verif_on_terminate() { const char m[] = "THROW uncaught C++ exception\n"; (void)!write(1, m, sizeof m - 1); _exit(0); }
+static struct VerifTerminateInstaller { VerifTerminateInstaller() { std::set_terminate(verif_on_terminate); } } verif_terminate_installer;
